@@ -199,6 +199,164 @@ type fillOpt struct {
 	pat      int
 	only     int // with present=="only": index (in walk order) of the single optional member to set
 	optSeen  int
+	skipOpen bool                 // leave out optional members that contain an unimplemented open type
+	onPath   map[reflect.Type]int // "deepest": struct types on the path from the root (a recursive schema stops there)
+}
+
+// leafPaths lists, for a type, every way down to a leaf (a primitive, or a type met a second time): the field index taken
+// at each structure / CHOICE on the way; pointers and lists are passed through.
+func leafPaths(t reflect.Type, path map[reflect.Type]bool, prefix []int, out *[][]int) {
+	switch t.Kind() {
+	case reflect.Ptr, reflect.Slice:
+		if t != asn.OctetStringType && t != asn.ObjectIdentifierType {
+			leafPaths(t.Elem(), path, prefix, out)
+			return
+		}
+	case reflect.Struct:
+		if path[t] || t == asn.BitStringType || hasEmptyChoice(t, map[reflect.Type]bool{}) && t.NumField() == 1 {
+			break
+		}
+		path[t] = true
+		n := 0
+		for i := 0; i < t.NumField(); i++ {
+			if t.Field(i).PkgPath == "" && t.Field(i).Name != "Present" && !hasEmptyChoice(t.Field(i).Type, map[reflect.Type]bool{}) {
+				leafPaths(t.Field(i).Type, path, append(append([]int{}, prefix...), i), out)
+				n++
+			}
+		}
+		delete(path, t)
+		if n > 0 {
+			return
+		}
+	}
+	*out = append(*out, prefix)
+}
+
+// fillAlong builds a value in which the given path is present down to its leaf (every OPTIONAL member and CHOICE
+// alternative on it); beside the path only mandatory members are filled, the leaf's own subtree as by "all".
+func (o *fillOpt) fillAlong(v reflect.Value, path []int) {
+	t := v.Type()
+	switch t.Kind() {
+	case reflect.Ptr:
+		v.Set(reflect.New(t.Elem()))
+		o.fillAlong(v.Elem(), path)
+		return
+	case reflect.Slice:
+		if t != asn.OctetStringType && t != asn.ObjectIdentifierType {
+			s := reflect.MakeSlice(t, 1, 1)
+			o.fillAlong(s.Index(0), path)
+			v.Set(s)
+			return
+		}
+	case reflect.Struct:
+		if len(path) == 0 || t == asn.BitStringType {
+			break
+		}
+		if t.Field(0).Name == "Present" {
+			v.Field(0).SetInt(int64(path[0]))
+			o.fillAlong(v.Field(path[0]), path[1:])
+			return
+		}
+		for i := 0; i < t.NumField(); i++ {
+			f := v.Field(i)
+			if !f.CanSet() {
+				continue
+			}
+			if i == path[0] {
+				o.fillAlong(f, path[1:])
+				continue
+			}
+			p := parseBerTag(t.Field(i).Tag.Get("ber"))
+			if p.Optional && (f.Kind() == reflect.Ptr || f.Kind() == reflect.Slice) {
+				continue // beside the path only what is mandatory
+			}
+			side := &fillOpt{rnd: o.rnd, present: "none", leaf: o.leaf, maxDepth: 7, skipOpen: true}
+			side.fill(f, 0)
+		}
+		return
+	}
+	side := &fillOpt{rnd: o.rnd, present: "all", leaf: o.leaf, maxDepth: 4, skipOpen: true}
+	side.fill(v, 0)
+}
+
+// hasEmptyChoice: every value of the type includes a CHOICE without alternatives -- an open type the schema leaves
+// unimplemented -- through mandatory members (or every alternative): such a value has no encoding.
+var emptyChoiceMemo = map[reflect.Type]bool{}
+
+func hasEmptyChoice(t reflect.Type, path map[reflect.Type]bool) bool {
+	if r, ok := emptyChoiceMemo[t]; ok {
+		return r
+	}
+	r := false
+	switch t.Kind() {
+	case reflect.Ptr, reflect.Slice:
+		if t != asn.OctetStringType && t != asn.ObjectIdentifierType {
+			r = hasEmptyChoice(t.Elem(), path)
+		}
+	case reflect.Struct:
+		if path[t] || t == asn.BitStringType {
+			return false
+		}
+		if t.NumField() == 1 && t.Field(0).Name == "Present" {
+			r = true
+			break
+		}
+		path[t] = true
+		if t.NumField() > 0 && t.Field(0).Name == "Present" {
+			r = true // a CHOICE: unless some alternative can be encoded
+			for i := 1; i < t.NumField() && r; i++ {
+				r = hasEmptyChoice(t.Field(i).Type, path)
+			}
+		} else {
+			for i := 0; i < t.NumField() && !r; i++ {
+				f := t.Field(i)
+				if f.PkgPath != "" || parseBerTag(f.Tag.Get("ber")).Optional {
+					continue
+				}
+				r = hasEmptyChoice(f.Type, path)
+			}
+		}
+		delete(path, t)
+	}
+	if len(path) == 0 {
+		emptyChoiceMemo[t] = r
+	}
+	return r
+}
+
+// typeDepth is the greatest number of nested fill steps (pointer, list, structure, alternative) below a type; a type
+// that contains itself counts only up to its first recurrence.
+var typeDepthMemo = map[reflect.Type]int{}
+
+func typeDepth(t reflect.Type, path map[reflect.Type]bool) int {
+	if d, ok := typeDepthMemo[t]; ok {
+		return d
+	}
+	d := 0
+	switch t.Kind() {
+	case reflect.Ptr, reflect.Slice:
+		if t != asn.OctetStringType && t != asn.ObjectIdentifierType {
+			d = 1 + typeDepth(t.Elem(), path)
+		}
+	case reflect.Struct:
+		if path[t] || t == asn.BitStringType {
+			return 0
+		}
+		path[t] = true
+		for i := 0; i < t.NumField(); i++ {
+			if t.Field(i).PkgPath != "" {
+				continue
+			}
+			if x := 1 + typeDepth(t.Field(i).Type, path); x > d {
+				d = x
+			}
+		}
+		delete(path, t)
+	}
+	if len(path) == 0 {
+		typeDepthMemo[t] = d
+	}
+	return d
 }
 
 var intBoundary []int64
@@ -260,7 +418,7 @@ func (o *fillOpt) wantOptional() bool {
 	switch o.present {
 	case "none":
 		return false
-	case "all", "holes", "emptylists", "defaults":
+	case "all", "holes", "emptylists", "defaults", "deepest":
 		return true
 	case "only":
 		return k == o.only
@@ -336,12 +494,31 @@ func (o *fillOpt) fill(v reflect.Value, depth int) {
 		}
 		v.Set(s)
 	case reflect.Struct:
+		if o.present == "deepest" {
+			if o.onPath == nil {
+				o.onPath = map[reflect.Type]int{}
+			}
+			o.onPath[t]++
+			defer func() { o.onPath[t]-- }()
+		}
 		if t.NumField() > 0 && t.Field(0).Name == "Present" {
 			if t.NumField() == 1 {
 				return
 			}
 			alt := 1 + o.rnd.Intn(t.NumField()-1)
-			if depth >= o.maxDepth {
+			if o.present == "deepest" && o.onPath[t] < 1 {
+				// the alternative with the most levels below it
+				best := -1
+				for i := 1; i < t.NumField(); i++ {
+					if hasEmptyChoice(t.Field(i).Type, map[reflect.Type]bool{}) {
+						continue
+					}
+					if d := typeDepth(t.Field(i).Type, map[reflect.Type]bool{}); d > best || (d == best && o.rnd.Intn(2) == 0) {
+						best, alt = d, i
+					}
+				}
+			}
+			if depth >= o.maxDepth || (o.present == "deepest" && o.onPath[t] >= 1) {
 				// pick an alternative that terminates quickly if there is one
 				for i := 1; i < t.NumField(); i++ {
 					ft := t.Field(i).Type
@@ -373,6 +550,9 @@ func (o *fillOpt) fill(v reflect.Value, depth int) {
 			if p.Optional && (f.Kind() == reflect.Ptr || f.Kind() == reflect.Slice) {
 				if !o.wantOptional() || depth >= o.maxDepth {
 					continue
+				}
+				if (o.present == "deepest" || o.skipOpen) && hasEmptyChoice(f.Type(), map[reflect.Type]bool{}) {
+					continue // (an unimplemented open type below: the value would have no encoding at all)
 				}
 			}
 			o.fill(f, depth+1)
@@ -562,13 +742,17 @@ func shapeType(c BerCase) reflect.Type {
 	}
 	for i, m := range c.Members {
 		t := memberType(m.Kind)
-		tag := fmt.Sprintf("tagNum:%d", m.Tag)
+		var parts []string
+		if m.Tag >= 0 { // (a negative tag: the member carries its type's UNIVERSAL tag)
+			parts = append(parts, fmt.Sprintf("tagNum:%d", m.Tag))
+		}
 		if m.Opt && c.Top != "choice" {
-			tag += ",optional"
+			parts = append(parts, "optional")
 		}
 		if m.Extra != "" {
-			tag += "," + m.Extra
+			parts = append(parts, m.Extra)
 		}
+		tag := strings.Join(parts, ",")
 		if (m.Opt || c.Top == "choice") && t.Kind() != reflect.Slice {
 			t = reflect.PtrTo(t)
 		}
@@ -1013,6 +1197,9 @@ func RunBer(in, out string) error {
 			}
 			ptr := reflect.New(t)
 			o := &fillOpt{rnd: rnd, present: c.Present, leaf: c.Leaf, maxDepth: 7, only: c.Only}
+			if c.Present == "deepest" {
+				o.maxDepth = 64 // every level of the schema, along the deepest alternatives
+			}
 			if c.Mode == "shape" {
 				// presence of each member is dictated by the shape
 				v := ptr.Elem()
@@ -1039,6 +1226,19 @@ func RunBer(in, out string) error {
 						oo.fill(f, 1)
 					}
 				}
+			} else if c.Present == "paths" {
+				// every leaf of the schema embedded in this (top-level) type: one value per way down
+				var paths [][]int
+				leafPaths(t, map[reflect.Type]bool{}, nil, &paths)
+				for pi, pth := range paths {
+					if pi%16 != c.Only {
+						continue // (the ways down are dealt out over 16 cases)
+					}
+					pp := reflect.New(t)
+					o.fillAlong(pp.Elem(), pth)
+					r.roundTrip(c, pp, c.Params)
+				}
+				continue
 			} else {
 				o.fill(ptr.Elem(), 0)
 			}
